@@ -87,7 +87,7 @@ func appendSENStringNotEmpty(fi *finfo, buf []byte, rv reflect.Value, addr uintp
 	return buf, nil, aWrote
 }
 
-func whichAppend(rt reflect.Type, omitEmpty bool) (f appendFunc) {
+func whichAppend(rt reflect.Type, omitEmpty bool) (f appendFunc, af appendFunc) {
 	v := reflect.New(rt).Elem().Interface()
 	switch v.(type) {
 	case json.Marshaler:
@@ -118,13 +118,13 @@ func whichAppend(rt reflect.Type, omitEmpty bool) (f appendFunc) {
 	vp := reflect.New(rt).Interface()
 	switch vp.(type) {
 	case json.Marshaler:
-		f = appendJSONMarshalerAddr
+		af = appendJSONMarshalerAddr
 	case encoding.TextMarshaler:
-		f = appendTextMarshalerAddr
+		af = appendTextMarshalerAddr
 	case alt.Simplifier:
-		f = appendSimplifierAddr
+		af = appendSimplifierAddr
 	case alt.Genericer:
-		f = appendGenericerAddr
+		af = appendGenericerAddr
 	}
 	return
 }
@@ -144,7 +144,13 @@ func newFinfo(f *reflect.StructField, key string, omitEmpty, omitTag, asString, 
 	var fx byte
 	// Check for interfaces first since almost any type can implement one of
 	// the supported interfaces.
-	af := whichAppend(fi.rt, omitEmpty)
+	ff, af := whichAppend(fi.rt, omitEmpty)
+	if ff != nil {
+		// The type itself, not just a pointer to it, implements the
+		// interface. Taking the address is not needed, which is not possible
+		// anyway if the struct is not addressable.
+		af = ff
+	}
 	if af != nil {
 		fi.Append = af
 		fi.iAppend = af
